@@ -22,8 +22,9 @@ def check (utf8 : Str → Bytes) (ipOK : Bool) (e : Env) : Res Obs → Option St
     if e.logname.isEmpty || o.logName ≠ e.logname then some "login-name"
     else if o.clientIP ≠ firstField e.sshConnection || !ipOK then some "client-ip"
     else if !(o.policy = NONS || o.policy = NSOK) then some "policy-value"
-    else if !(3 ≤ toks.length && toks.length ≤ 6) then some "force-command-length"
-    else if toks[toks.length - 2]? ≠ some o.policy then some "policy-position"
+    -- "taken from the forced command": the value is one of its tokens (where it sits and how many
+    -- tokens a command may have is the code's convention, not part of the statement)
+    else if !toks.contains o.policy then some "policy-not-from-forced-command"
     else if o.tid ≠ "ok" then some "transaction-id"
     else match unmarshal e.cmdTok e.cmdRaw with
       | .ok d =>
